@@ -99,24 +99,16 @@ func (c *Cache[K, V]) add(key K, val V, d time.Duration) error {
 
 // put has a local scope only, the caller holds the write lock.
 func (c *Cache[K, V]) put(key K, val V, d time.Duration) error {
-	var inl1_v0 int64
-	{
-		var c *Cache[K, V] = c
-		_ = c
-		var d time.Duration = d
-		_ = d
-		var exp int64
-		if d == DefaultExpiration {
-			d = c.expTime
-		}
-		if d > 0 {
-			exp = time.Now().Add(d).UnixNano()
-		} else if d < 0 {
-			exp = int64(NoExpiration)
-		}
-		inl1_v0 = exp
+	var exp int64
+
+	if d == DefaultExpiration {
+		d = c.expTime
 	}
-	exp := inl1_v0
+	if d > 0 {
+		exp = time.Now().Add(d).UnixNano()
+	} else if d < 0 {
+		exp = int64(NoExpiration)
+	}
 
 	item, err := c.get(key)
 	if item != nil && err != nil {
@@ -145,21 +137,33 @@ func (c *Cache[K, V]) Get(key K) (*Item[V], error) {
 	c.mu.RLock()
 	defer c.mu.RUnlock()
 
-	return c.get(key)
+	item, err := c.get(key)
+	if err != nil {
+		return nil, err
+	}
+	return item, nil
 }
 
 // get has a local scope only, the caller holds the lock.
+// For an expired item, which has not been evicted yet, the stale item is returned together
+// with the error: this is how the callers can tell an expired item from a missing one.
 func (c *Cache[K, V]) get(key K) (*Item[V], error) {
-	if item, ok := c.items[key]; ok {
-		if item.expiration > 0 {
-			now := time.Now().UnixNano()
-			if now > item.expiration {
-				return nil, fmt.Errorf("item with key '%v' expired", key)
-			}
-		}
-		return item, nil
+	item, ok := c.items[key]
+	if !ok {
+		return nil, fmt.Errorf("item with key '%v' not found", key)
 	}
-	return nil, fmt.Errorf("item with key '%v' not found", key)
+	var inl1_v0 bool
+	{
+		var it *Item[V] = item
+		_ = it
+		var now int64 = time.Now().UnixNano()
+		_ = now
+		inl1_v0 = it.expiration > 0 && now > it.expiration
+	}
+	if inl1_v0 {
+		return item, fmt.Errorf("item with key '%v' expired", key)
+	}
+	return item, nil
 }
 
 // Val returns the effective value of the cache item.
@@ -207,7 +211,15 @@ func (c *cache[K, V]) DeleteExpired() error {
 
 	c.mu.Lock()
 	for k, item := range c.items {
-		if item.expiration > 0 && now > item.expiration {
+		var inl2_v0 bool
+		{
+			var it *Item[V] = item
+			_ = it
+			var now int64 = now
+			_ = now
+			inl2_v0 = it.expiration > 0 && now > it.expiration
+		}
+		if inl2_v0 {
 			if e := c.delete(k); e != nil {
 				err = errors.Join(err, e)
 			}
@@ -265,12 +277,9 @@ func (c *Cache[K, V]) IsExpired(key K) bool {
 	c.mu.RLock()
 	defer c.mu.RUnlock()
 
-	if item, ok := c.items[key]; ok {
-		if item.expiration > 0 && time.Now().UnixNano() > item.expiration {
-			return true
-		}
-	}
-	return false
+	item, err := c.get(key)
+
+	return item != nil && err != nil
 }
 
 // cleanup runs the cache cleanup function at the specified time interval an removes all the expired cache items.
